@@ -1,7 +1,7 @@
 (* ReuseModel.v — "may this response be stored and later served without contacting the origin" (C11).
    Transcribed, branch for branch, from the pinned tree (USE_HTTP_VIOLATIONS build, default settings):
      strListGetItem (src/StrList.cc), HttpHeader::getList / getCc / hasListMember (src/HttpHeader.cc),
-     httpHeaderParseInt (src/HttpHeaderTools.cc), httpHeaderParseQuotedString (src/HttpHeader.cc),
+     httpHeaderParseInt (src/HttpHeaderTools.cc), httpHeaderParseQuotedString (src/HttpHeader.cc, as of /repo c6c56f5: quoted-pairs decoded, HTAB accepted),
      HttpHdrCc::parse (src/HttpHdrCc.cc),
      clientInterpretRequestHeaders (src/client_side_request.cc), HttpRequest::maybeCacheable (src/HttpRequest.cc),
      storeCreateEntry (src/store.cc), HttpReply::hdrExpirationTime (src/HttpReply.cc),
@@ -91,7 +91,7 @@ Fixpoint qs_run_end (fuel : nat) (p : bytes) (len e : N) : N :=   (* the inner `
   | O => e
   | S f =>
       let c := byte_at p e in
-      if (e <? len) && negb (c =? 92) && negb (c =? 34) && (31 <? c) && negb (c =? 127)
+      if (e <? len) && negb (c =? 92) && negb (c =? 34) && ((31 <? c) || (c =? 9)) && negb (c =? 127)
       then qs_run_end f p len (e + 1) else e
   end.
 Fixpoint qs_loop (fuel : nat) (p : bytes) (len pos : N) (val : bytes) : qs_result :=
@@ -117,14 +117,17 @@ Fixpoint qs_loop (fuel : nat) (p : bytes) (len pos : N) (val : bytes) : qs_resul
               let pos_ok :=
                 if quoted then
                   let pos1 := pos + 1 in
-                  if (byte_at p pos1 =? 0) || (len <? pos1) then None else Some pos1
+                  let q := byte_at p pos1 in
+                  (* quoted-pair = "\" ( HTAB / SP / VCHAR / obs-text ), inside the field *)
+                  if (q =? 0) || (len <=? pos1) || ((q <=? 31) && negb (q =? 9)) || (q =? 127) then None else Some pos1
                 else Some pos in
               match pos_ok with
               | None => QsFail
               | Some pos =>
-                  let e := qs_run_end (length p) p len pos in
+                  (* the escaped octet is taken literally, even when it is DQUOTE or backslash; qdtext includes HTAB *)
+                  let e := qs_run_end (length p) p len (if quoted then pos + 1 else pos) in
                   let c := byte_at p e in
-                  if ((c <=? 31) && negb (c =? 13) && negb (c =? 10)) || (c =? 127) then QsFail
+                  if ((c <=? 31) && negb (c =? 13) && negb (c =? 10) && negb (c =? 9)) || (c =? 127) then QsFail
                   else qs_loop f p len e (val ++ takeN (e - pos) (dropN pos p))
               end
         end
